@@ -530,6 +530,74 @@ def measure_write_set():
     return {k: sorted(v) for k, v in dyn.items()}, {k: sorted(v) for k, v in dyn_mod.items()}
 
 
+def class_containers():
+    "every dict / list / set that is an attribute of a class or module of the package: process-wide mutable state"
+    import inspect
+    out = []
+    seen = set()
+
+    def walk(owner, oname):
+        for k, v in list(vars(owner).items()):
+            if isinstance(v, (dict, list, set)) and not (k.startswith('__') and k.endswith('__')):
+                out.append((owner, k, v, '%s.%s' % (oname, k)))
+            elif inspect.isclass(v) and getattr(v, '__module__', '').startswith('droop') and id(v) not in seen:
+                seen.add(id(v))
+                walk(v, '%s.%s' % (oname, k) if inspect.isclass(owner) else v.__name__)
+    for mn in sorted(m for m in sys.modules if m == 'droop' or m.startswith('droop.')):
+        mod = sys.modules[mn]
+        if mod is None:
+            continue
+        for k, v in list(vars(mod).items()):
+            if isinstance(v, (dict, list, set)) and not k.startswith('__'):
+                out.append((mod, k, v, '%s.%s' % (mn, k)))
+            elif inspect.isclass(v) and getattr(v, '__module__', '') == mn and id(v) not in seen:
+                seen.add(id(v))
+                walk(v, v.__name__)
+    return out
+
+
+def _container_sig(v):
+    "identity signature of a container's contents (no comparison of the elements themselves, which may be proxies)"
+    if isinstance(v, dict):
+        return tuple(sorted((id(k), id(x)) for k, x in v.items()))
+    if isinstance(v, list):
+        return tuple(id(x) for x in v)
+    return tuple(sorted(id(x) for x in v))
+
+
+class StaleContainer:
+    "stands in for a class-level container that an earlier count has written to: writes are accepted, any read is a stale read"
+
+    def __init__(self, name):
+        self._n = name
+
+    def _boom(self, *a, **k):
+        raise Stale(self._n)
+
+    def _ok(self, *a, **k):
+        return None
+
+
+for _m in ['__getitem__', '__contains__', '__iter__', '__len__', '__bool__', 'get', 'keys', 'values', 'items', 'pop', 'popitem',
+           'setdefault', 'index', 'count', 'copy', '__eq__', '__ne__', '__reversed__']:
+    setattr(StaleContainer, _m, StaleContainer._boom)
+for _m in ['__setitem__', '__delitem__', 'append', 'extend', 'add', 'update', 'clear', 'insert', 'remove', 'discard', 'sort']:
+    setattr(StaleContainer, _m, StaleContainer._ok)
+
+
+def tie_variant(text):
+    "the same ballot file with the tie-break order reversed (a natural predecessor: same title, same names)"
+    import re
+    lines = text.split('\n')
+    n = int(lines[0].split()[0])
+    for i, ln in enumerate(lines):
+        m = re.match(r'\[tie ([0-9 ]+)\]\s*$', ln)
+        if m:
+            lines[i] = '[tie %s]' % ' '.join(reversed(m.group(1).split()))
+            return '\n'.join(lines)
+    return '\n'.join([lines[0], '[tie %s]' % ' '.join(str(c) for c in range(n, 0, -1))] + lines[1:])
+
+
 def havoc(wset, wmods):
     classes = value_classes()
     for cn, attrs in wset.items():
@@ -540,7 +608,7 @@ def havoc(wset, wmods):
             setattr(sys.modules[mn], a, Poison('%s.%s' % (mn, a)))
 
 
-def history_outputs(pred, text, options):
+def history_outputs(pred, text, options, pred_text=None):
     "pristine side, fresh interpreter per call: optional predecessor election, then the election under test"
     code = ('import sys, json; sys.path.insert(0, %r)\n'
             'from droop.profile import ElectionProfile\nfrom droop.election import Election\n'
@@ -548,7 +616,7 @@ def history_outputs(pred, text, options):
             'if pred is not None:\n'
             '    P = Election(ElectionProfile(data=%r), dict(pred)); P.count(); P.report(); P.dump(); P.json()\n'
             'E = Election(ElectionProfile(data=%r), json.loads(%r)); E.count()\n'
-            'sys.stdout.write(json.dumps([E.report(), E.dump(), E.json()]))\n') % (shims.REPO, json.dumps(pred), PRED_BLT, text, json.dumps(options))
+            'sys.stdout.write(json.dumps([E.report(), E.dump(), E.json()]))\n') % (shims.REPO, json.dumps(pred), pred_text or PRED_BLT, text, json.dumps(options))
     p = subprocess.run([sys.executable, '-c', code], capture_output=True, text=True, timeout=120)
     if p.returncode != 0:
         return 'ERROR: ' + p.stderr[-300:]
@@ -563,6 +631,11 @@ def history_replay(text, options):
         out = history_outputs(pred, text, options)
         if out != fresh:
             diffs.append(pred)
+    # the same file with another tie-break order, and the file itself, counted first under the same options
+    for ptxt, label in ((tie_variant(text), 'same file, tie order reversed'), (text, 'same file')):
+        out = history_outputs(dict(options), text, options, pred_text=ptxt)
+        if out != fresh:
+            diffs.append(dict(predecessor=label, options=options))
     return dict(violated=bool(diffs), detail=diffs[:3])
 
 
@@ -583,10 +656,21 @@ def run_havoc(spec, res, pristine, budget):
 
     def body(e):
         # reference: the election on freshly initialised classes
+        conts = class_containers()
+        snap = [(_container_sig(v), (dict(v) if isinstance(v, dict) else list(v))) for _, _, v, _ in conts]
         E1 = Election(U.profile(), election_options(spec))
         E1.count()
         stats1 = (gm.Guarded.maxDiff, gm.Guarded.minDiff)
         havoc(wset, wmods)
+        # class-level containers the first count has written to: what is in them is some earlier election's
+        swapped = []
+        for (owner, k, v, nm), (sig0, _) in zip(conts, snap):
+            if _container_sig(v) != sig0:
+                setattr(owner, k, StaleContainer(nm))
+                swapped.append((owner, k, v))
+                res['extra'].setdefault('containers_written_by_a_count', [])
+                if nm not in res['extra']['containers_written_by_a_count']:
+                    res['extra']['containers_written_by_a_count'].append(nm)
         key = None
         cond = None
         try:
@@ -601,6 +685,14 @@ def run_havoc(spec, res, pristine, budget):
                 E2.V.report()
         except Stale as ex:
             key = 'stale-read:%s' % ex
+        finally:
+            # put the containers back as they were before this path (no pollution from one path to the next)
+            for (owner, k, v, nm), (_, old) in zip(conts, snap):
+                if getattr(owner, k, None) is not v:
+                    setattr(owner, k, v)
+                if _container_sig(v) != _container_sig(old):
+                    v.clear()
+                    (v.update(old) if isinstance(v, (dict, set)) else v.extend(old))
         if key is None:
             kind, x = compare_records(E1, E2)
             if kind == 'STRUCT':
@@ -660,10 +752,10 @@ def run_options(spec, res, pristine, budget):
                 if pd or pf:
                     # a rule declares the option: default first, possibly forced
                     if pd:
-                        o.setopt(name, default=SymInt(vd))
+                        rv_d = o.setopt(name, default=SymInt(vd))
                         declared = True
                     if pf:
-                        o.setopt(name, default=SymInt(vf), force=True)
+                        rv_f = o.setopt(name, default=SymInt(vf), force=True)
                         declared = True
                 got = o.getopt(name)
                 # expected by the documented order.  setopt(force=True) also records its value as the default when none was set
@@ -687,6 +779,12 @@ def run_options(spec, res, pristine, budget):
                         bad.append(('value-lost', z3.BoolVal(True)))
                     else:
                         bad.append(('precedence', lz(got) != exp))
+                # setopt() returns the effective value (the value classes configure themselves from what it returns)
+                if pd:
+                    exp_d = vc if pc else vl if pl else vd
+                    bad.append(('setopt-return', z3.BoolVal(True) if rv_d is None else lz(rv_d) != exp_d))
+                if pf:
+                    bad.append(('setopt-return', z3.BoolVal(True) if rv_f is None else lz(rv_f) != vf))
                 recd = o.record()
                 if pc and (name not in recd['cmd'] or z3.is_false(z3.simplify(lz(recd['cmd'][name]) == vc))):
                     bad.append(('record-cmd', z3.BoolVal(True)))
@@ -744,14 +842,18 @@ def options_replay(name, presence, vals):
     if pl:
         o.update({name: vals['v_file']}, file_options=True)
     declared = False
-    if pd:
-        o.setopt(name, default=vals['v_default'])
-        declared = True
-    if pf:
-        o.setopt(name, default=vals['v_force'], force=True)
-        declared = True
-    exp = vals['v_force'] if pf else vals['v_cmd'] if pc else vals['v_file'] if pl else vals['v_default'] if pd else None
     fails = []
+    if pd:
+        rv = o.setopt(name, default=vals['v_default'])
+        declared = True
+        if rv != (vals['v_cmd'] if pc else vals['v_file'] if pl else vals['v_default']):
+            fails.append('setopt(default) returned %r' % (rv,))
+    if pf:
+        rv = o.setopt(name, default=vals['v_force'], force=True)
+        declared = True
+        if rv != vals['v_force']:
+            fails.append('setopt(force) returned %r' % (rv,))
+    exp = vals['v_force'] if pf else vals['v_cmd'] if pc else vals['v_file'] if pl else vals['v_default'] if pd else None
     if o.getopt(name) != exp:
         fails.append('getopt %r != %r' % (o.getopt(name), exp))
     r = o.record()
